@@ -56,6 +56,9 @@ def main():
         rc0, o0 = sh('/venv/bin/python demo_seed.py', cwd=wt)
         meta['ran'].append(dict(cmd='demo_seed.py on the original tree', exit=rc0, tail=o0.strip().splitlines()[-1:] ))
         rc, o = sh('git apply %s' % os.path.abspath(a.patch), cwd=wt)
+        if rc:       # the patch was made against an earlier HEAD of /repo (a fix: commit came in between): three-way
+            rc, o = sh('git apply -3 %s && git reset -q' % os.path.abspath(a.patch), cwd=wt)
+            meta['ran'].append(dict(cmd='git apply -3 (patch made against an earlier HEAD)', exit=rc))
         if rc:
             print('patch does not apply:', o)
             return 2
